@@ -10,6 +10,26 @@ CHECKS = {
   text="Exploration: the oracle is total (decides any byte string), so it runs beside every execution of a seeded workload (exhaustive short strings over a 12-symbol alphabet, CR/NUL-heavy soup, all spec prefixes, multi-MiB prose). Held on the K executions observed; nothing is proved for inputs outside the workload.",
   note="Trusted: my re-computation of ranges/NUL replacement/line counts from the raw input; Go runtime. Aliasing judged for NUL-free input only (as stated).",
   ref="DESIGN.md section 6 C01"),
+ "C02": dict(
+  technique="runtime monitor: span invariants (valid, inside Source, inside parent, siblings ordered, root span shape, rune boundaries) asserted at every node of every tree the workload produces, via the public Node API",
+  text="Exploration: a total structural oracle runs beside every Parse (and streaming+Extract+Rewrite on every 4th case) of a seeded workload: exhaustive strings over a 12-symbol inline alphabet, all spec prefixes, line-structured documents with inline constructs split across container lines, atom soup, mutated spec documents, pathological templates. Held on the executions observed.",
+  note="Trusted: my tree walk over Node.Child/ChildCount/Span. Zero-length spans are allowed; rune boundaries judged only for valid UTF-8 input.",
+  ref="DESIGN.md section 6 C02"),
+ "C03": dict(
+  technique="runtime monitor: per-root-block byte coverage counter incremented by every leaf span (conservation: no byte twice, every letter/digit/non-ASCII byte once)",
+  text="Exploration: conservation oracle over the same structural workload as C02; evidence reports leaves per kind and bytes accounted. Held on the executions observed.",
+  note="Trusted: the reading of 'leaf' fixed in DESIGN (childless Text/RawHTML/CharacterReference/breaks/Indent inlines and ListMarker blocks).",
+  ref="DESIGN.md section 6 C03"),
+ "C05": dict(
+  technique="runtime monitor: executable tree grammar and accessor-consistency rules checked at every node of trees from Parse and from streaming+Extract+Rewrite",
+  text="Exploration: the grammar rules the statement lists are judged at every node; doc-comment-only rules are recorded. Workload as C02 with streaming on every 2nd case. Held on the executions observed.",
+  note="Trusted: my transcription of the statement's grammar; Indent admitted wherever the library's tab handling places it.",
+  ref="DESIGN.md section 6 C05"),
+ "C13": dict(
+  technique="runtime monitor: per-kind shape predicate on Source[span] at every node, with a coverage gate of >= 1000 checked nodes per kind",
+  text="Exploration: weakest-reading shape predicates for the 14 constructs the statement names, evaluated on every node of the structural workload. A run that saw fewer than 1000 nodes of any listed kind is inconclusive. Held on the executions observed.",
+  note="Trusted: the predicates (DESIGN table C13).",
+  ref="DESIGN.md section 6 C13"),
 }
 
 NOT_YET = {}
